@@ -332,7 +332,7 @@ func bchSplitHeader() *wire.BlockHeader {
 func init() {
 	core.Register(&core.Property{
 		ID: "C13", Engine: "G", Level: "exploration", Bubble: true,
-		Rule: "each run: one real BitcoinNode (full or verify-only, with or without a transaction manager) over a simulated connection inside a synctest bubble; the scripted peer sends tape-chosen well-formed messages (headers connecting or not, addr, inv, tx, block, extended tx/block/unknown, getaddr, ping, repeated version/verack, unhandled commands) before version, between version and verack (or verack first, or no verack), and after the handshake before verification, delivered in tape-chosen fragments and delays; then one of 7 verification replies; 1 run in 5 instead puts 1-3 unverified nodes under a real NodeManager and asks it for headers, transactions and a block; non-trivial = the run reached a verification outcome or the manager scenario; distinct = distinct hash of the canonical event log",
+		Rule: "each run: one real BitcoinNode (full or verify-only, with or without a transaction manager) over a simulated connection inside a synctest bubble; the scripted peer sends tape-chosen well-formed messages (headers connecting or not, addr, inv, tx, block, extended tx/block/unknown, getaddr, ping, repeated version/verack, unhandled commands) before version, between version and verack (or verack first, or no verack), and after the handshake before verification, delivered in tape-chosen fragments and delays; then one of 7 verification replies; 1 run in 5 instead puts 1-3 unverified nodes under a real NodeManager and asks it for headers, transactions and a block; non-trivial = the run reached a verification outcome or the manager scenario; distinct = distinct hash of the canonical event log Engine F phase (second search phase, instrumented build, see DESIGN.md 2.4): the same world with the node's goroutines (read loop, per-message handler goroutines, handshake and verification, ping loop, outgoing queue) under the tape's statement-level scheduler between the delivered chunks; a stalled goroutine resumes when nothing else can run; everything runs to rest before the state is judged",
 		Real: nodeReal, Stub: nodeStub,
 		Assumptions: []string{"goroutine order between two quiescent points is the Go runtime's (GOMAXPROCS=1 in workers); every oracle is a safety invariant over recorded calls and messages, independent of that order",
 			"the repository spies read Verified() of the owning node at call time"},
